@@ -780,3 +780,35 @@ def merge_twin_locals(fn: ast.AST) -> bool:
             blk.append(ast.Pass())
     ast.fix_missing_locations(fn)
     return True
+
+
+def propagate_copies(fn: ast.AST) -> bool:
+    """`x = y` where x is bound only there and y is bound exactly once (or is a parameter): x is renamed to y."""
+    params = {a.arg for a in ast.walk(fn) if isinstance(a, ast.arg)}
+    stores: dict[str, int] = {}
+    for n in ast.walk(fn):
+        if isinstance(n, ast.Name) and isinstance(n.ctx, (ast.Store, ast.Del)):
+            stores[n.id] = stores.get(n.id, 0) + 1
+    ren = {}
+    for blk in _blocks(fn):
+        for s in blk:
+            if isinstance(s, ast.Assign) and len(s.targets) == 1 and isinstance(s.targets[0], ast.Name) and isinstance(s.value, ast.Name):
+                x, y = s.targets[0].id, s.value.id
+                if x != y and x not in params and stores.get(x) == 1 and (stores.get(y, 0) == 1 or (y in params and stores.get(y, 0) == 0)) and x not in ren and y not in ren:
+                    ren[x] = y
+    if not ren:
+        return False
+    # resolve chains
+    for x in list(ren):
+        seen = {x}
+        while ren[x] in ren and ren[x] not in seen:
+            seen.add(ren[x])
+            ren[x] = ren[ren[x]]
+    for n in ast.walk(fn):
+        if isinstance(n, ast.Name) and n.id in ren:
+            n.id = ren[n.id]
+    for blk in _blocks(fn):
+        blk[:] = [s for s in blk if not (isinstance(s, ast.Assign) and len(s.targets) == 1 and isinstance(s.targets[0], ast.Name)
+                                         and isinstance(s.value, ast.Name) and s.value.id == s.targets[0].id)] or [ast.Pass()]
+    ast.fix_missing_locations(fn)
+    return True
